@@ -8,9 +8,9 @@ from vlib import *
 TRACE_CFG = "Erc20PegTrace.cfg"
 
 MANIFEST_ENTRY = dict(engine="Erc20Peg", design="§4 C10",
-   technique="TLA+ spec Erc20Peg.tla: property layer (backing invariants per pair origin, exact-or-no-effect rule for every conversion path) and as-built machine (ConvertCoin, ConvertERC20, EVM post-tx hook, bank-send wrapper, ICS-20 callbacks, toggle, holder burn, thief drain, contract destruction) parameterised by five token-contract behaviours; TLC exhaustive model checking of the intended design and of the machine with the named defect hook_no_checks (compensated invariants pass, strict ones must fail); TLC-simulated behaviours and seeded random large-amount scenarios executed on the real chain (message router, real Ethereum transactions through DeliverTx so that the hook runs, the application's real ICS-20 stack); every recorded step validated by TLC against the property layer",
-   text="TLC enumerates every sequence of conversions in both directions by message, by ERC20 transfer to the module address (hook), by bank send and by IBC receive/acknowledgement/timeout (both pair origins), ERC20 transfers, approvals, holder burns, pair toggles, thief drains and contract destruction (2 holders + thief, amounts 1..3, both pair origins, honest / delayed-malicious / direct-balance-manipulation / self-destructed / fake-Transfer-log tokens) and proves the backing invariants and the exact-or-no-effect rule on the intended design; the same behaviours are then executed against the real keepers with the repository's compiled token contracts (thief address substituted so that the drain can be signed) and a hand-assembled log-forging token, and TLC decides from real bank supply/balances and real totalSupply()/balanceOf() calls after every step whether the pair is still backed and whether each step moved both representations by the same amount or neither.",
-   note="Bounded by the constants in specs/Erc20Peg_*.cfg; Cosmos messages run through MsgServiceRouter handlers on a cached context (baseapp.runMsgs semantics) rather than signed DeliverTx, Ethereum transactions through full DeliverTx; IBC callbacks are driven by calling the application's transfer stack from the IBC router with crafted packets (no light clients / channel handshake; outgoing MsgTransfer is not driven, the coins in flight of an ERC20-origin pair are put into the channel escrow account by an environment step); contract destruction is a state edit (no SELFDESTRUCT-capable artifact in the repository); a dead contract has no token side, so the backing invariants are only evaluated for living contracts.")
+   technique="TLA+ spec Erc20Peg.tla: property layer (backing invariants per pair origin, exact-or-no-effect rule for every conversion path) and as-built machine (ConvertCoin, ConvertERC20, EVM post-tx hook, bank-send wrapper, ICS-20 callbacks, toggle, holder burn, thief drain, contract destruction) parameterised by the behaviour of the token contract - five fixed contracts and a switchable adversarial family (how balanceOf/totalSupply answer: truthfully / no data / revert / 16 bytes / always 0 / too high; what transfer does: honest / nothing / half / double / to the thief instead / to the receiver and as much again to the thief / moves but answers false, nothing, 16 bytes / moves nothing and answers false; for ever or only until the first transfer, so that the answer before a transfer differs from the one after it); the state holds the token's TRUE books, the machine computes what the keeper SEES; TLC exhaustive model checking of the intended design and of the machine with the named defects hook_no_checks, unescrow_receiver_only and wrapper_false_is_success (compensated invariants pass, strict ones must fail); TLC-simulated behaviours and seeded random large-amount scenarios executed on the real chain (message router, real Ethereum transactions through DeliverTx so that the hook runs, the application's real ICS-20 stack); every recorded step validated by TLC against the property layer",
+   text="TLC enumerates every sequence of conversions in both directions by message, by ERC20 transfer to the module address (hook), by bank send and by IBC receive/acknowledgement/timeout (both pair origins), ERC20 transfers, approvals, holder burns, pair toggles, thief drains and contract destruction (2 holders + thief, amounts 1..3, both pair origins, honest / delayed-malicious / direct-balance-manipulation / self-destructed / fake-Transfer-log tokens and 22 members of the adversarial family with the owner's arm/disarm switch as a step) and proves the backing invariants and the exact-or-no-effect rule on the intended design; the same behaviours are then executed against the real keepers with the repository's compiled token contracts (thief address substituted so that the drain can be signed) a hand-assembled log-forging token and the hand-assembled adversarial family (34 combinations; armed by a real transaction of its owner after holders converted honestly; the attacker picks amounts adaptively, e.g. exactly what the escrow holds), and TLC decides from real bank supply/balances and the token's books (real totalSupply()/balanceOf() calls; for the adversarial family, whose answers are the thing under test, its contract storage) after every step whether the pair is still backed and whether each step moved both representations by the same amount or neither.",
+   note="Bounded by the constants in specs/Erc20Peg_*.cfg; Cosmos messages run through MsgServiceRouter handlers on a cached context (baseapp.runMsgs semantics) rather than signed DeliverTx, Ethereum transactions through full DeliverTx; IBC callbacks are driven by calling the application's transfer stack from the IBC router with crafted packets (no light clients / channel handshake; outgoing MsgTransfer is not driven, the coins in flight of an ERC20-origin pair are put into the channel escrow account by an environment step); contract destruction is a state edit (no SELFDESTRUCT-capable artifact in the repository); a dead contract has no token side, so the backing invariants are only evaluated for living contracts; the adversarial family logs truthfully (lying logs are the fake-Transfer-log token) and leaves out tokens whose two answers within one conversion differ by exactly the converted amount while nothing moved (a forged delta is the only evidence any implementation can have: Erc20Peg_forged_delta.cfg and one fixed witness scenario record that the code mints against nothing for them).")
 
 PROCS = 4
 
@@ -42,7 +42,7 @@ def _changed(a, b, keys):
     return any(a[k] != b[k] for k in keys)
 
 
-def _scan(path, c, counts, classes):
+def _scan(path, c, counts, classes, combos):
     """vacuity bookkeeping: which conversions really happened, by origin and path"""
     prev = None
     with open(path) as fh:
@@ -69,6 +69,13 @@ def _scan(path, c, counts, classes):
                 counts["steps"] = counts.get("steps", 0) + 1
                 counts["steps_ok"] = counts.get("steps_ok", 0) + (1 if o["ok"] else 0)
                 classes.add((kind, p["behaviour"], o["ev"], o["ok"]))
+                if p["behaviour"] == "adv":
+                    if o["ev"] == "arm" and o["ok"]:
+                        counts["adv:arm"] = counts.get("adv:arm", 0) + 1
+                    if p["armed"] and path_:
+                        combos.add((p["bal"], p["xfer"], p["shot"]))
+                        key = "adv:armed:" + ("accepted" if o["ok"] and (coin_moved or tok_moved) else "rejected" if not o["ok"] else "no-effect")
+                        counts[key] = counts.get(key, 0) + 1
                 if conv and len(c.samples) < 6 and (o["ev"], kind) not in {(s["ev"], s["kind"]) for s in c.samples}:
                     c.samples.append({"ev": o["ev"], "kind": kind, "behaviour": p["behaviour"], "args": o["args"], "ok": o["ok"],
                                       "pre": {k: p[k] for k in ("escrowCoins", "coinSupply", "coinBal", "tokenSupply", "tokenBal")},
@@ -79,7 +86,17 @@ def _scan(path, c, counts, classes):
 FLOORS = ["coin:msg_c2t", "coin:msg_t2c", "erc20:msg_c2t", "erc20:msg_t2c", "coin:hook", "erc20:hook", "coin:bank", "erc20:bank",
           "coin:ibc_recv", "coin:ibc_ack", "coin:ibc_timeout", "erc20:ibc_recv", "erc20:ibc_ack", "erc20:ibc_timeout", "erc20:ibc_out",
           "coin:approve_module", "coin:approve_holder", "erc20:approve_module", "erc20:approve_holder", "coin:holder_burn", "erc20:thief_drain", "erc20:destroy",
-          "coin:toggle", "erc20:toggle", "conv:delayedMalicious:hook", "conv:directManipulation:hook", "conv:fakeTransferLog:hook"]
+          "coin:toggle", "erc20:toggle", "conv:delayedMalicious:hook", "conv:directManipulation:hook", "conv:fakeTransferLog:hook",
+          "conv:adv:msg_t2c", "conv:adv:msg_c2t", "conv:adv:hook", "conv:adv:bank", "conv:adv:ibc_timeout",
+          "adv:armed:accepted", "adv:armed:rejected"]
+ADV_COMBOS = 34      # MC_AdvReal of the specification
+
+# a token that forges the keeper's only evidence (answers 0 before, the truth after, moves nothing):
+# outside what any implementation can defend, recorded as a known finding by this fixed witness
+FORGED_WITNESS = {"cfg": {"kind": "erc20", "behaviour": "adv", "bal": "zero", "xfer": "noop", "shot": "once"},
+                  "steps": [{"ev": "convert_erc20", "args": {"from": "a1", "to": "a1", "amt": "2"}},
+                            {"ev": "arm", "args": {"on": True}},
+                            {"ev": "convert_erc20", "args": {"from": "t", "to": "t", "amt": "2"}}]}
 
 
 def run(c):
@@ -89,34 +106,50 @@ def run(c):
 
     # 1. the design: exhaustive model checking of P on the intended machine; the machine with the
     #    known defect satisfies the compensated invariants and violates the strict ones
-    cfg = "Erc20Peg_intended.cfg" if quick else "Erc20Peg_intended_thorough.cfg"
-    r = tlc_exhaustive(wd, "Erc20Peg.tla", cfg, workers=4, timeout=3000)
-    c.add_tlc(cfg, r)
-    cfg = "Erc20Peg_defect_comp.cfg" if quick else "Erc20Peg_defect_comp_thorough.cfg"
-    r = tlc_exhaustive(wd, "Erc20Peg.tla", cfg, workers=4, timeout=3000)
-    c.add_tlc(cfg, r)
-    for cfg in ("Erc20Peg_defect_strict.cfg", "Erc20Peg_defect_strict_fake.cfg"):
-        r = tlc_exhaustive(wd, "Erc20Peg.tla", cfg, must="fail", workers=2)
-        c.add_tlc(cfg, r)
+    big = ["Erc20Peg_intended.cfg" if quick else "Erc20Peg_intended_thorough.cfg",
+           "Erc20Peg_defect_comp.cfg" if quick else "Erc20Peg_defect_comp_thorough.cfg"]
+    # the adversarial family (22 members, the owner's switch as a step): intended design and the
+    # machine with the three named defects
+    for base in ("Erc20Peg_adv_intended.cfg", "Erc20Peg_adv_defect_comp.cfg"):
+        cfg = base
+        if not quick:
+            txt = open(os.path.join(wd, base)).read().replace("MaxLen = 4", "MaxLen = 6")
+            cfg = base.replace(".cfg", "_thorough.cfg")
+            open(os.path.join(wd, cfg), "w").write(txt)
+        big.append(cfg)
+    with concurrent.futures.ThreadPoolExecutor(max_workers=2) as ex:
+        futs = [(cfg, ex.submit(tlc_exhaustive, wd, "Erc20Peg.tla", cfg, workers=4, timeout=3000)) for cfg in big]
+        for cfg, f in futs:
+            c.add_tlc(cfg, f.result())
+    # non-vacuity: with a named defect the strict property layer must fail; so must it for a forged delta
+    witnesses = ("Erc20Peg_defect_strict.cfg", "Erc20Peg_defect_strict_fake.cfg", "Erc20Peg_defect_strict_extra.cfg",
+                 "Erc20Peg_defect_strict_refuse.cfg", "Erc20Peg_forged_delta.cfg")
+    with concurrent.futures.ThreadPoolExecutor(max_workers=3) as ex:
+        futs = [(cfg, ex.submit(tlc_exhaustive, wd, "Erc20Peg.tla", cfg, must="fail", workers=2)) for cfg in witnesses]
+        for cfg, f in futs:
+            c.add_tlc(cfg, f.result())
 
     # 2. spec -> code: behaviours of the model as scripts
     depth = 8 if quick else 12
     scripts = []
-    for kind, num in (("coin", 140 if quick else 1200), ("erc20", 260 if quick else 2400), ("erc20ibc", 120 if quick else 1000)):
+    for kind, num in (("coin", 140 if quick else 1200), ("erc20", 260 if quick else 2400), ("erc20ibc", 120 if quick else 1000),
+                      ("adv", 600 if quick else 4000)):
         cfgname = "Erc20Peg_sim_%s.cfg" % kind
+        d = depth + 2 if kind == "adv" else depth      # the adversarial walk: honest phase, arming, attempts
         if not quick:
-            txt = open(os.path.join(wd, cfgname)).read().replace("MaxLen = 8", "MaxLen = %d" % depth)
+            txt = open(os.path.join(wd, cfgname)).read().replace("MaxLen = %d" % (10 if kind == "adv" else 8), "MaxLen = %d" % d)
             cfgname = "Erc20Peg_sim_%s_long.cfg" % kind
             open(os.path.join(wd, cfgname), "w").write(txt)
-        s, _ = tlc_scripts(wd, "Erc20Peg.tla", cfgname, num, depth, c.seed, timeout=1500)
+        s, _ = tlc_scripts(wd, "Erc20Peg.tla", cfgname, num, d, c.seed, timeout=1500)
         if len(s) < num // 2:
             raise Infra("too few %s scripts generated: %d" % (kind, len(s)))
         scripts += s
+    scripts.append(FORGED_WITNESS)
     for s in scripts:
         s["steps"] = [{"ev": st["ev"], "args": st["args"]} for st in s["steps"]]
     with open(os.path.join(wd, "scripts.json"), "w") as fh:
         json.dump(scripts, fh)
-    nrandom = 60 if quick else 900
+    nrandom = 96 if quick else 1200
     rsteps = 14 if quick else 30
 
     # 3. real executions and code -> spec validation, in PROCS independent chunks
@@ -136,14 +169,14 @@ def run(c):
         for f in concurrent.futures.as_completed(futs):
             results[futs[f]] = f.result()
     viol, div, consumed, scen = [], [], 0, 0
-    counts, classes = {}, set()
+    counts, classes, combos = {}, set(), set()
     for k in sorted(results):
         res = results[k]
         viol += res["viol"]
         div += res["div"]
         consumed += res["consumed"]
         scen += res["scenarios"]
-        _scan(os.path.join(wd, "chunk%d" % k, "trace.ndjson"), c, counts, classes)
+        _scan(os.path.join(wd, "chunk%d" % k, "trace.ndjson"), c, counts, classes, combos)
     c.traces = scen
     c.extra["trace_lines"] = consumed
     c.extra["scripts_replayed"] = len(scripts)
@@ -152,6 +185,7 @@ def run(c):
     c.extra["conformance_divergence_count"] = len(div)
     c.extra["conversions_and_steps_observed"] = dict(sorted(counts.items()))
     c.extra["step_classes_exercised"] = len(classes)
+    c.extra["adversarial_combinations_met_armed"] = len(combos)
     # 4. verdict: every signature is reproduced alone from its recorded scenario
     def replay_for(v):
         lines = scenario_lines(os.path.join(wd, "chunk%d" % v["chunk"], "trace.ndjson"), v["scn"])
@@ -182,6 +216,8 @@ def run(c):
     vacuous = [f for f in FLOORS if counts.get(f, 0) < (1 if quick else 5)]
     if counts.get("steps_ok", 0) < 500:
         vacuous.append("steps_ok>=500")
+    if len(combos) < ADV_COMBOS:
+        vacuous.append("adversarial combinations met armed on a conversion path: %d < %d" % (len(combos), ADV_COMBOS))
     c.extra["vacuity_floors_missed"] = vacuous
     if vacuous:
         if not new:
@@ -198,6 +234,7 @@ def run(c):
         "pairs are registered and toggled through the x/erc20 governance proposal handler on the deliver state, not through a voted proposal",
         "the thief address hard-coded in ERC20MaliciousDelayed / ERC20DirectBalanceManipulation is replaced in the creation bytecode by an address whose key the harness holds",
         "contract destruction is a state edit (statedb Suicide + Commit, as in the repository's own tests)",
+        "the adversarial token family is hand-assembled EVM code (harness/erc20peg.go epAdvTokenCode); its true books are its storage slots, read through EvmKeeper.GetState; it is armed / disarmed by a signed Ethereum transaction of the thief",
         "exhaustive model checking is bounded by the constants in specs/Erc20Peg_*.cfg",
     ]
 
